@@ -272,6 +272,8 @@ var rR21 = RuleRef{Name: "R21", Doc: "lazy expiry: every keyspace access that ob
 		key ssa.Value
 		con string
 	}
+	var countOnly map[*ssa.Function]map[int]bool
+	var hard map[*ssa.Function][]int
 	collect := func(fn *ssa.Function) []site {
 		var out []site
 		ord := map[string]int{}
@@ -317,6 +319,9 @@ var rR21 = RuleRef{Name: "R21", Doc: "lazy expiry: every keyspace access that ob
 				if cf := callee(ci); cf != nil {
 					for _, pi := range t.pre[cf] {
 						if pi < len(ci.Common().Args) {
+							if countOnly[cf][pi] && !resultUsed(ci) {
+								continue // the helper only reports how many keys it removed, and nobody listens here
+							}
 							k := ci.Common().Args[pi]
 							con := "call " + cf.Name() + "(" + canon(k) + ") observes its key"
 							ord[con]++
@@ -333,6 +338,10 @@ var rR21 = RuleRef{Name: "R21", Doc: "lazy expiry: every keyspace access that ob
 	}
 	// preconditions of helpers (key is a parameter), to fixpoint
 	for iter := 0; iter < 4; iter++ {
+		if countOnly == nil {
+			countOnly = map[*ssa.Function]map[int]bool{}
+			hard = map[*ssa.Function][]int{}
+		}
 		changed := false
 		_, argOnly := c.funcArgBindings()
 		for _, fn := range fns {
@@ -343,12 +352,28 @@ var rR21 = RuleRef{Name: "R21", Doc: "lazy expiry: every keyspace access that ob
 			seen := map[int]bool{}
 			for _, s := range collect(fn) {
 				if ok, _ := t.checked(fn, s.in, s.key); !ok {
-					if pi := paramIndex(fn, canon(s.key)); pi >= 0 && !seen[pi] {
-						seen[pi] = true
-						ps = append(ps, pi)
+					if pi := paramIndex(fn, canon(s.key)); pi >= 0 {
+						// a removal whose count is only handed back (removed := db.Delete(key); return removed) observes
+						// the key exactly when the caller looks at that count
+						if !(deleteCountOnlyReturned(c, s.in) || (callee(s.in) != nil && countOnly[callee(s.in)][pi])) {
+							hard[fn] = append(hard[fn], pi)
+						}
+						if !seen[pi] {
+							seen[pi] = true
+							ps = append(ps, pi)
+						}
 					}
 				}
 			}
+			co := map[int]bool{}
+			for _, pi := range ps {
+				co[pi] = true
+			}
+			for _, pi := range hard[fn] {
+				co[pi] = false
+			}
+			hard[fn] = nil
+			countOnly[fn] = co
 			if len(ps) != len(t.pre[fn]) {
 				t.pre[fn] = ps
 				changed = true
@@ -1165,4 +1190,56 @@ func (c *C) ttlRemoverParams(fn *ssa.Function) []int {
 		out = append(out, k)
 	}
 	return out
+}
+
+// deleteCountOnlyReturned: ci is db.Delete(key) and its result goes nowhere but into the function's own return value
+// (directly, or added to a count that is returned).
+func deleteCountOnlyReturned(c *C, ci ssa.CallInstruction) bool {
+	a := c.keyspaceAccess(ci)
+	if a == nil || a.Map != "db" || a.Method != "Delete" {
+		return false
+	}
+	v, ok := ci.(ssa.Value)
+	if !ok || v.Referrers() == nil {
+		return false
+	}
+	seen := map[ssa.Value]bool{}
+	var onlyRet func(v ssa.Value, d int) bool
+	onlyRet = func(v ssa.Value, d int) bool {
+		if seen[v] || d > 4 {
+			return true
+		}
+		seen[v] = true
+		if v.Referrers() == nil {
+			return true
+		}
+		for _, r := range *v.Referrers() {
+			switch y := r.(type) {
+			case *ssa.Return, *ssa.DebugRef:
+			case *ssa.BinOp:
+				if y.Op != token.ADD || !onlyRet(y, d+1) {
+					return false
+				}
+			case *ssa.Phi:
+				if !onlyRet(y, d+1) {
+					return false
+				}
+			case *ssa.Store:
+				// the named result cell
+				al, isAl := y.Addr.(*ssa.Alloc)
+				if !isAl || al.Heap {
+					return false
+				}
+				for _, rr := range *al.Referrers() {
+					if ld, isLd := rr.(*ssa.UnOp); isLd && !onlyRet(ld, d+1) {
+						return false
+					}
+				}
+			default:
+				return false
+			}
+		}
+		return true
+	}
+	return onlyRet(v, 0)
 }
